@@ -64,6 +64,9 @@ func runC20(w *World, r *Report) {
 	c20NilElem(w, r)
 	c20Recover(w, r)
 	c20Depth(w, r)
+	c20NilHole(w, r)
+	c20IndexGuard(w, r)
+	c20ValidateLast(w, r)
 }
 
 func c20Scope(w *World, r *Report) (map[*ssa.Function]bool, map[*ssa.Function]bool) {
